@@ -32,8 +32,8 @@ def _ufuncs():
 def generate(rng, tier):
     kind = rng.choice(['tensor', 'tensor', 'discr', 'discr', 'power'])
     dtype = rng.choice(DTYPES)
-    nd = rng.choice([1, 1, 2])
-    shape = [rng.randint(1, 5) for _ in range(nd)]
+    nd = rng.choice([1, 1, 1, 2, 2, 3])
+    shape = [rng.randint(1, 5 if nd < 3 else 3) for _ in range(nd)]
     if kind == 'discr' and np.dtype(dtype).kind not in 'fc':
         dtype = 'float64'
     sp = {'kind': kind, 'dtype': dtype, 'shape': shape}
@@ -89,7 +89,8 @@ def generate(rng, tier):
                                'logical_and', 'bitwise_or'])
             m = rng.choice(METHODS)
             op.update({'uf': name, 'm': m, 'ins': [h(), h()],
-                       'axis': rng.choice([None, 0, -1, 0, 1, [0, 1], [0, -1]]),
+                       'axis': rng.choice([None, 0, -1, 0, 1, [0, 1], [0, -1],
+                                           2, [0, 2], [1, 2], [-1, 0]]),
                        'keepdims': rng.random() < 0.3,
                        'out': h() if rng.random() < 0.3 else None})
             if rng.random() < 0.15:
@@ -99,6 +100,9 @@ def generate(rng, tier):
             if rng.random() < 0.5:
                 op['at_idx'].append(op['at_idx'][0])
             op['at_val'] = rng.choice([2, 1, -1, 3])
+            if m == 'outer' and rng.random() < 0.5:
+                # second operand from a space of another size
+                op['outer_other'] = rng.randint(1, 4)
         elif t == 'setitem':
             op.update({'h': h(), 'idx': rng.choice(['all', 'first', 'last',
                                                     'slice', 'mask']),
@@ -512,6 +516,22 @@ class Run(object):
             kw['dtype'] = op['dtype']
         m_in = [self.stores[s].model for s, _ in ins]
         r_in = [self.stores[s].handle(hk) for s, hk in ins]
+        if m == 'outer' and op.get('outer_other') and len(r_in) == 2:
+            k = op['outer_other']
+            o = SP.odl()
+            dt = self.S.dtype
+            if self.kind == 'discr':
+                S2 = o.uniform_discr(0.0, 1.0, k, dtype=dt)
+            else:
+                S2 = o.tensor_space((k,), dtype=dt)
+            g2 = np_rng('c17-outer', self.plan['xseed'], k)
+            a2 = SP.rand_array((k,), dt, g2)
+            if np.dtype(dt).kind in 'iu':
+                a2 = np.asarray(g2.integers(1, 6, size=(k,))).astype(dt)
+            m_in[1] = np.array(a2, copy=True)
+            with seams.allocator('zero'):
+                r_in[1] = S2.element(np.array(a2, copy=True))
+            self.ctx.fired('outer-other-size')
         extra = []
         if m == 'at':
             n0 = len(m_in[0])
@@ -543,6 +563,14 @@ class Run(object):
         if out and m != 'at' and isinstance(m_res, np.ndarray):
             out_arr = np.empty(m_res.shape, dtype=m_res.dtype)
             fill_garbage(out_arr, op['fill'], 3)
+            # the model writes into an out of the same layout: NumPy's
+            # reduction order (and with it the last bit of complex products)
+            # depends on the layout of the output
+            for st, sn in zip(self.stores, snap):
+                st.model[...] = sn
+            m_out = np.empty(m_res.shape, dtype=m_res.dtype)
+            with np.errstate(all='ignore'):
+                m_res = getattr(uf, m)(*(m_in + extra), out=m_out, **kw)
             kw['out'] = out_arr
         fired = {}
         try:
@@ -595,6 +623,9 @@ def _legacy_reduce(self, op):
     if op.get('out') and isinstance(m_res, np.ndarray):
         out_arr = np.empty(m_res.shape, dtype=m_res.dtype)
         fill_garbage(out_arr, op['fill'], 5)
+        m_out = np.empty(m_res.shape, dtype=m_res.dtype)
+        with np.errstate(all='ignore'):
+            m_res = npf.reduce(st.model, out=m_out, **kw)
     site = '{}/legacy.{}'.format(self.kind, name)
     try:
         with seams.allocator(self.gk, salt=44):
